@@ -7,6 +7,7 @@ import (
 	"path/filepath"
 
 	"github.com/dadrus/heimdall/internal/config"
+	"github.com/dadrus/heimdall/internal/rules/mechanisms"
 	"github.com/dadrus/heimdall/internal/rules/mechanisms/authenticators"
 	"github.com/dadrus/heimdall/internal/rules/mechanisms/authorizers"
 	"github.com/dadrus/heimdall/internal/rules/mechanisms/contextualizers"
@@ -87,11 +88,18 @@ func normMap(m map[string]any) map[string]any {
 }
 
 type builder struct {
-	memo map[string]*built
+	memo    map[string]*built
+	factory map[string]mechanisms.MechanismFactory
 }
 
-func newBuilder() *builder { return &builder{memo: map[string]*built{}} }
+func newBuilder() *builder {
+	return &builder{memo: map[string]*built{}, factory: map[string]mechanisms.MechanismFactory{}}
+}
 
+// build creates the mechanism: one catalogue (prototype) per distinct prototype
+// configuration, shared by all its rule level variants like in production. The
+// construction runs under the default map order so that the internal layout of
+// the decoded maps (headers, values) is the same in every run.
 func (b *builder) build(m *MechSpec) (*built, error) {
 	kb, _ := json.Marshal(m)
 	key := string(kb)
@@ -102,49 +110,72 @@ func (b *builder) build(m *MechSpec) (*built, error) {
 
 	if len(b.memo) > 4096 {
 		b.memo = map[string]*built{}
+		b.factory = map[string]mechanisms.MechanismFactory{}
 	}
 
-	mech := config.Mechanism{ID: m.ID, Type: m.Type, Config: normMap(expandKeyStore(m.Config))}
-	cat := &config.MechanismPrototypes{}
+	pb, _ := json.Marshal(MechSpec{Kind: m.Kind, ID: m.ID, Type: m.Type, Config: m.Config})
+	pkey := string(pb)
 
-	switch m.Kind {
-	case "authenticator":
-		cat.Authenticators = []config.Mechanism{mech}
-	case "authorizer":
-		cat.Authorizers = []config.Mechanism{mech}
-	case "contextualizer":
-		cat.Contextualizers = []config.Mechanism{mech}
-	case "finalizer":
-		cat.Finalizers = []config.Mechanism{mech}
-	default:
-		return nil, fmt.Errorf("unknown kind %q", m.Kind)
-	}
+	var (
+		r   *built
+		err error
+	)
 
-	mf, err := hx.RealFactory(cat)
+	env.WithMapOrder(nil, func() {
+		mf, ok := b.factory[pkey]
+		if !ok {
+			mech := config.Mechanism{ID: m.ID, Type: m.Type, Config: normMap(expandKeyStore(m.Config))}
+			cat := &config.MechanismPrototypes{}
+
+			switch m.Kind {
+			case "authenticator":
+				cat.Authenticators = []config.Mechanism{mech}
+			case "authorizer":
+				cat.Authorizers = []config.Mechanism{mech}
+			case "contextualizer":
+				cat.Contextualizers = []config.Mechanism{mech}
+			case "finalizer":
+				cat.Finalizers = []config.Mechanism{mech}
+			default:
+				err = fmt.Errorf("unknown kind %q", m.Kind)
+
+				return
+			}
+
+			if mf, err = hx.RealFactory(cat); err != nil {
+				err = fmt.Errorf("catalogue rejected: %w", err)
+
+				return
+			}
+
+			b.factory[pkey] = mf
+		}
+
+		var ov config.MechanismConfig
+		if m.Override != nil {
+			ov = normMap(m.Override)
+		}
+
+		r = &built{kind: m.Kind}
+
+		switch m.Kind {
+		case "authenticator":
+			r.authn, err = mf.CreateAuthenticator("", m.ID, ov)
+		case "authorizer":
+			r.authz, err = mf.CreateAuthorizer("", m.ID, ov)
+		case "contextualizer":
+			r.ctxz, err = mf.CreateContextualizer("", m.ID, ov)
+		case "finalizer":
+			r.fin, err = mf.CreateFinalizer("", m.ID, ov)
+		}
+
+		if err != nil {
+			err = fmt.Errorf("rule level configuration rejected: %w", err)
+		}
+	})
+
 	if err != nil {
-		return nil, fmt.Errorf("catalogue rejected: %w", err)
-	}
-
-	var ov config.MechanismConfig
-	if m.Override != nil {
-		ov = normMap(m.Override)
-	}
-
-	r := &built{kind: m.Kind}
-
-	switch m.Kind {
-	case "authenticator":
-		r.authn, err = mf.CreateAuthenticator("", m.ID, ov)
-	case "authorizer":
-		r.authz, err = mf.CreateAuthorizer("", m.ID, ov)
-	case "contextualizer":
-		r.ctxz, err = mf.CreateContextualizer("", m.ID, ov)
-	case "finalizer":
-		r.fin, err = mf.CreateFinalizer("", m.ID, ov)
-	}
-
-	if err != nil {
-		return nil, fmt.Errorf("rule level configuration rejected: %w", err)
+		return nil, err
 	}
 
 	b.memo[key] = r
@@ -191,8 +222,21 @@ func (r *built) exec(in *Input, cch *recCache, script []uint8) (Obs, []uint8, in
 		o.Subject = string(sb)
 	}
 
-	if len(c.out) != 0 {
-		ob, _ := json.Marshal(c.out)
+	// outputs produced by the mechanism (entries of the input are not an observation)
+	produced := map[string]any{}
+
+	for k, v := range c.out {
+		if s, ok := v.(string); ok {
+			if iv, had := in.Outputs[k]; had && iv == s {
+				continue
+			}
+		}
+
+		produced[k] = v
+	}
+
+	if len(produced) != 0 {
+		ob, _ := json.Marshal(produced)
 		o.Outputs = string(ob)
 	}
 
